@@ -19,9 +19,9 @@ Inductive c03kind :=
     (* a whole audio request through the HTTP router: reference lookup by number ([mode = 0]) or by
        time ([mode = 1]), recipe, createAudioSeg. Default configuration (start 0, tsbd 60 s, ato 0).
        Classes: 0 = 200, 1 = 500, 2 = panic, 3 = 404, 4 = 425, 5 = 410 *)
-| KTimeline (startNr refT : Z) (entries : list (Z * Z)) (r dflt codec a : Z) (ocls : Z) (obs : list (Z * Z * Z))
-    (* generateTimelineEntriesFromRef: produced entries (t or -1, d, r); [dflt], [codec]: DefaultSampleDuration and
-       codec family of the representation (see Audio.rep_sample_dur) *).
+| KTimeline (startNr refT : Z) (entries : list (Z * Z)) (r cdur dflt codec a : Z) (ocls : Z) (obs : list (Z * Z * Z))
+    (* generateTimelineEntriesFromRef: produced entries (t or -1, d, r); [cdur], [dflt], [codec]: constant sample
+       duration, DefaultSampleDuration and codec family of the representation (see Audio.mpd_frame_dur) *).
 
 Record c03case := { c_id : Z; c_k : c03kind }.
 
@@ -88,8 +88,8 @@ Definition case_ok (c : c03case) : bool :=
       out_ok [] (create_audio_seg F tab rc) ocls otfdt oseq oframes
   | KReq vr loopMS startNr F a tab canon mode segID nowMS ocls otfdt oseq oframes =>
       req_ok canon (req_model vr loopMS startNr F a tab mode segID nowMS) ocls otfdt oseq oframes
-  | KTimeline startNr refT entries r dflt codec a ocls obs =>
-      match mpd_audio_timeline startNr refT entries r dflt codec a with
+  | KTimeline startNr refT entries r cdur dflt codec a ocls obs =>
+      match mpd_audio_timeline startNr refT entries r cdur dflt codec a with
       | Ok l => (ocls =? 0) && list_eqb triple_eqb (map entry_view l) obs
       | m => cls m =? ocls
       end
@@ -117,8 +117,8 @@ Definition model_view (c : c03case) : Z * list Z :=
       | Timeline.TOk o => out_view (Ok o)
       | m => (ocls_of m, [])
       end
-  | KTimeline startNr refT entries r dflt codec a _ _ =>
-      match mpd_audio_timeline startNr refT entries r dflt codec a with
+  | KTimeline startNr refT entries r cdur dflt codec a _ _ =>
+      match mpd_audio_timeline startNr refT entries r cdur dflt codec a with
       | Ok l => (0, concat (map (fun s => let '(a, b, c) := entry_view s in [a; b; c]) (firstn 4 l)))
       | m => (cls m, [])
       end
